@@ -158,6 +158,8 @@ structure RH (sl : List (Slot N)) : Prop where
   /-- keys are pairwise different -/
   distinct : ∀ a b, a < sl.length → b < sl.length → Occ sl a → Occ sl b →
     contentEq (sg sl a).1 (sg sl b).1 = true → a = b
+  /-- unused slots are exactly (nil, nil) -/
+  blank : ∀ j, j < sl.length → ¬ Occ sl j → sg sl j = emptySlot
 
 
 theorem occ_set {sl : List (Slot N)} {i : Nat} (hi : i < sl.length) (k v : JVal N) (j : Nat) :
@@ -216,7 +218,12 @@ theorem RH.set_occupied {sl : List (Slot N)} (hrh : RH sl) {i : Nat} (hi : i < s
     have := nx_cases hi
     have : z = i := by omega
     subst this; exact hz2 hocc
-  refine ⟨?_, ?_, ?_⟩
+  refine ⟨?_, ?_, ?_, ?_⟩
+  rotate_left 3
+  · intro j hj hnj
+    rw [hlen] at hj; rw [hoc] at hnj; rw [hsg]
+    have : j ≠ i := fun e => hnj (e ▸ hocc)
+    simp only [this, if_false]; exact hrh.blank j hj hnj
   · intro x j hx hj hox hd
     rw [hlen] at hx hj hd; rw [hoc] at hox ⊢
     rw [hsg] at hd
@@ -267,7 +274,12 @@ theorem RH.set_empty {sl : List (Slot N)} (hrh : RH sl) {i : Nat} (hi : i < sl.l
     intro j; rw [sg_set]; by_cases h : j = i
     · subst h; simp [hi]
     · simp [h, Ne.symm h]
-  refine ⟨?_, ?_, ?_⟩
+  refine ⟨?_, ?_, ?_, ?_⟩
+  rotate_left 3
+  · intro j hj hnj
+    rw [hlen] at hj; rw [hoc] at hnj; rw [hsg]
+    have : j ≠ i := fun e => hnj (Or.inl e)
+    simp only [this, if_false]; exact hrh.blank j hj (fun h => hnj (Or.inr h))
   · intro x j hx hj hox hd
     rw [hlen] at hx hj hd; rw [hoc] at hox ⊢
     rw [hsg] at hd
@@ -318,5 +330,241 @@ theorem RH.set_empty {sl : List (Slot N)} (hrh : RH sl) {i : Nat} (hi : i < sl.l
       have hoa' : Occ sl a := by rcases hoa with h | h; exact absurd h hai; exact h
       have hob' : Occ sl b := by rcases hob with h | h; exact absurd h hbi; exact h
       exact hrh.distinct a b ha hb hoa' hob' he
+
+
+/-- the array holds the entry `e` -/
+def Has (sl : List (Slot N)) (e : Slot N) : Prop := ∃ j, j < sl.length ∧ Occ sl j ∧ sg sl j = e
+
+theorem putLoop_step_empty {cap : Nat} {replace : Bool} {fuel i dist : Nat} {key value : JVal N} {h : UInt32}
+    {sl : List (Slot N)} (he : (sg sl i).1.isNil = true) :
+    putLoop cap replace (fuel + 1) i dist key value h sl = (sl.set i (key, value), true) := by
+  rw [putLoop]; simp only [sg] at he; simp only [he, if_true]
+
+theorem putLoop_step_occ {cap : Nat} {replace : Bool} {fuel i dist : Nat} {key value : JVal N} {h : UInt32}
+    {sl : List (Slot N)} (he : (sg sl i).1.isNil = false) :
+    putLoop cap replace (fuel + 1) i dist key value h sl =
+      match putStatus dist (dst cap i (hm cap (sg sl i).1)) h (hash (sg sl i).1) key (sg sl i).1 with
+      | .gt => putLoop cap replace fuel (nx cap i) (dst cap i (hm cap (sg sl i).1) + 1) (sg sl i).1 (sg sl i).2
+                 (hash (sg sl i).1) (sl.set i (key, value))
+      | .eq => ((if replace then sl.set i ((sg sl i).1, value) else sl), false)
+      | .lt => putLoop cap replace fuel (nx cap i) (dist + 1) key value h sl := by
+  rw [putLoop]; simp only [sg] at he; simp only [he, Bool.false_eq_true, if_false]; rfl
+
+
+theorem has_set_occ {sl : List (Slot N)} {i : Nat} (hi : i < sl.length) (hocc : Occ sl i) (hd : RH sl)
+    {key value : JVal N} (hk : key.isNil = false) (e : Slot N) :
+    Has (sl.set i (key, value)) e ↔ ((Has sl e ∧ e ≠ sg sl i) ∨ e = (key, value)) := by
+  have hsg : ∀ j, sg (sl.set i (key, value)) j = if j = i then (key, value) else sg sl j := by
+    intro j; rw [sg_set]; by_cases h : j = i
+    · subst h; simp [hi]
+    · simp [h, Ne.symm h]
+  have hoc : ∀ j, Occ (sl.set i (key, value)) j ↔ Occ sl j := by
+    intro j; rw [occ_set hi]; by_cases h : j = i
+    · subst h; simp [hk, hocc]
+    · simp [h]
+  unfold Has
+  constructor
+  · rintro ⟨j, hj, ho, he⟩
+    rw [hsg] at he; rw [hoc] at ho
+    simp only [List.length_set] at hj
+    by_cases hji : j = i
+    · simp only [hji, if_true] at he; exact Or.inr he.symm
+    · simp only [hji, if_false] at he
+      refine Or.inl ⟨⟨j, hj, ho, he⟩, fun h => ?_⟩
+      rw [← he] at h
+      exact hji (hd.distinct j i hj hi ho hocc (by rw [h]; exact contentEq_refl_both.1 _))
+  · rintro (⟨⟨j, hj, ho, he⟩, hne⟩ | h)
+    · have hji : j ≠ i := fun e' => hne (by rw [← he, e'])
+      exact ⟨j, by simpa using hj, (hoc j).mpr ho, by rw [hsg]; simp only [hji, if_false]; exact he⟩
+    · exact ⟨i, by simpa using hi, (hoc i).mpr hocc, by rw [hsg]; simp [h]⟩
+
+theorem has_set_empty {sl : List (Slot N)} {i : Nat} (hi : i < sl.length) (hemp : ¬ Occ sl i)
+    {key value : JVal N} (hk : key.isNil = false) (e : Slot N) :
+    Has (sl.set i (key, value)) e ↔ (Has sl e ∨ e = (key, value)) := by
+  have hsg : ∀ j, sg (sl.set i (key, value)) j = if j = i then (key, value) else sg sl j := by
+    intro j; rw [sg_set]; by_cases h : j = i
+    · subst h; simp [hi]
+    · simp [h, Ne.symm h]
+  have hoc : ∀ j, Occ (sl.set i (key, value)) j ↔ (j = i ∨ Occ sl j) := by
+    intro j; rw [occ_set hi]; by_cases h : j = i
+    · subst h; simp [hk]
+    · simp [h]
+  unfold Has
+  constructor
+  · rintro ⟨j, hj, ho, he⟩
+    rw [hsg] at he; rw [hoc] at ho
+    simp only [List.length_set] at hj
+    by_cases hji : j = i
+    · simp only [hji, if_true] at he; exact Or.inr he.symm
+    · simp only [hji, if_false] at he
+      rcases ho with h | h
+      · exact absurd h hji
+      · exact Or.inl ⟨j, hj, h, he⟩
+  · rintro (⟨j, hj, ho, he⟩ | h)
+    · have hji : j ≠ i := fun e' => hemp (e' ▸ ho)
+      exact ⟨j, by simpa using hj, (hoc j).mpr (Or.inr ho), by rw [hsg]; simp only [hji, if_false]; exact he⟩
+    · exact ⟨i, by simpa using hi, (hoc i).mpr (Or.inl rfl), by rw [hsg]; simp [h]⟩
+
+/-- **the probe loop of `janet_struct_put_ext`** inserting a key that is not in the array: it fills the first empty slot
+    at or after the start slot, keeps the robin-hood invariant, and adds exactly the new pair.
+    The displaced pair always travels on with ITS OWN hash and distance (`hash kv.1`, `otherdist + 1`). -/
+theorem putLoop_spec (cap : Nat) (replace : Bool) (i0 : Nat) (hi0 : i0 < cap) :
+    ∀ (fuel s i : Nat) (key value : JVal N) (sl : List (Slot N)),
+      sl.length = cap → RH sl → i < cap → s + fuel = cap → dst cap i i0 = s →
+      (∀ j, j < cap → dst cap j i0 < s → Occ sl j) →
+      (∃ z, z < cap ∧ ¬ Occ sl z) →
+      key.isNil = false →
+      (∀ j, j < cap → dst cap j (hm cap key) < dst cap i (hm cap key) → Occ sl j) →
+      (∀ p, p < cap → nx cap p = i → hm cap key ≠ i → stat cap p (sg sl p).1 key = .gt) →
+      (∀ j, j < cap → Occ sl j → contentEq key (sg sl j).1 = false) →
+      ∃ f sl', f < cap ∧ putLoop cap replace fuel i (dst cap i (hm cap key)) key value (hash key) sl = (sl', true) ∧
+        sl'.length = cap ∧ RH sl' ∧ ¬ Occ sl f ∧
+        (∀ j, j < cap → dst cap j i < dst cap f i → Occ sl j) ∧
+        (∀ j, Occ sl' j ↔ (Occ sl j ∨ j = f)) ∧
+        (∀ e, Has sl' e ↔ (Has sl e ∨ e = (key, value))) := by
+  intro fuel
+  induction fuel with
+  | zero =>
+    intro s i key value sl hlen hrh hi hs hd
+    have := dst_lt hi hi0; omega
+  | succ fuel ih =>
+    intro s i key value sl hlen hrh hi hs hd hvis hz hk hpath hprev hnew
+    subst hlen
+    have hcap : 0 < sl.length := by omega
+    by_cases hocc : Occ sl i
+    · -- occupied: compare with the resident
+      have hocc' : (sg sl i).1.isNil = false := hocc
+      rw [putLoop_step_occ hocc']
+      have hr_home := hm_lt hcap (sg sl i).1
+      have hk_home := hm_lt hcap key
+      have hn := nx_lt hi
+      -- the visited stretch does not cover the array
+      have hs1 : s + 1 < sl.length := no_full rfl hi hi0 hz hvis hocc hd
+      have hvis' : ∀ (sl2 : List (Slot N)), (∀ j, Occ sl2 j ↔ Occ sl j) →
+          ∀ j, j < sl.length → dst sl.length j i0 < s + 1 → Occ sl2 j := by
+        intro sl2 ho j hj hlt
+        rw [ho]
+        by_cases e : dst sl.length j i0 < s
+        · exact hvis j hj e
+        · have : j = i := dst_inj_left hj hi hi0 (by omega)
+          subst this; exact hocc
+      have hd' : dst sl.length (nx sl.length i) i0 = s + 1 := by rw [dst_nx hi hi0 (by omega), hd]
+      cases hst : putStatus (dst sl.length i (hm sl.length key)) (dst sl.length i (hm sl.length (sg sl i).1)) (hash key)
+          (hash (sg sl i).1) key (sg sl i).1 with
+      | eq =>
+        exfalso
+        have := putStatus_eq_content hst
+        rw [hnew i hi hocc] at this; cases this
+      | gt =>
+        have hrh1 := hrh.set_occupied hi hocc (value := value) hk hpath hprev hst hnew hz
+        have hoc1 : ∀ j, Occ (sl.set i (key, value)) j ↔ Occ sl j := by
+          intro j; rw [occ_set hi]; by_cases h : j = i
+          · subst h; simp [hk, hocc]
+          · simp [h]
+        have hsg1 : ∀ j, sg (sl.set i (key, value)) j = if j = i then (key, value) else sg sl j := by
+          intro j; rw [sg_set]; by_cases h : j = i
+          · subst h; simp [hi]
+          · simp [h, Ne.symm h]
+        have hrd : dst sl.length i (hm sl.length (sg sl i).1) + 1 < sl.length :=
+          no_full rfl hi hr_home hz (fun j hj hlt => hrh.chain i j hi hj hocc hlt) hocc rfl
+        have hrdn : dst sl.length (nx sl.length i) (hm sl.length (sg sl i).1) = dst sl.length i (hm sl.length (sg sl i).1) + 1 :=
+          dst_nx hi hr_home hrd
+        have := ih (s + 1) (nx sl.length i) (sg sl i).1 (sg sl i).2 (sl.set i (key, value)) (by simp) hrh1 hn (by omega) hd'
+          (hvis' _ hoc1)
+          (by obtain ⟨z, hz1, hz2⟩ := hz; exact ⟨z, hz1, fun h => hz2 ((hoc1 z).mp h)⟩)
+          hocc'
+          (by
+            intro j hj hlt
+            rw [hoc1, ]
+            rw [hrdn] at hlt
+            by_cases e : dst sl.length j (hm sl.length (sg sl i).1) < dst sl.length i (hm sl.length (sg sl i).1)
+            · exact hrh.chain i j hi hj hocc e
+            · have : j = i := dst_inj_left hj hi hr_home (by omega)
+              subst this; exact hocc)
+          (by
+            intro p hp hnp _
+            have : p = i := nx_inj hp hi hnp
+            subst this
+            rw [hsg1]; simp only [if_true]
+            exact hst)
+          (by
+            intro j hj hoj
+            rw [hoc1] at hoj
+            rw [hsg1]
+            by_cases hji : j = i
+            · subst hji; simp only [if_true]
+              rw [contentEq_symm_both.1]; exact hnew j hj hoj
+            · simp only [hji, if_false]
+              cases hce : contentEq (sg sl i).1 (sg sl j).1 with
+              | false => rfl
+              | true => exact absurd (hrh.distinct i j hi hj hocc hoj hce).symm hji)
+        obtain ⟨f, sl', hf, hres, hlen', hrh', hnf, hpth, hocc2, hhas⟩ := this
+        rw [hrdn] at hres
+        have hfi : f ≠ i := fun e => hnf (by rw [e, hoc1]; exact hocc)
+        refine ⟨f, sl', hf, ?_, hlen', hrh', fun h => hnf ((hoc1 f).mpr h), ?_, ?_, ?_⟩
+        · have e : (sg sl i) = ((sg sl i).1, (sg sl i).2) := rfl
+          exact hres
+        · intro j hj hlt
+          by_cases hji : j = i
+          · subst hji; exact hocc
+          · have e1 := dst_from_nx hi hj hji
+            have e2 := dst_from_nx hi hf hfi
+            exact (hoc1 j).mp (hpth j hj (by omega))
+        · intro j; rw [hocc2, hoc1]
+        · intro e
+          rw [hhas, has_set_occ hi hocc hrh hk]
+          constructor
+          · rintro ((⟨h1, _⟩ | h1) | h1)
+            · exact Or.inl h1
+            · exact Or.inr h1
+            · exact Or.inl ⟨i, hi, hocc, h1.symm⟩
+          · rintro (h1 | h1)
+            · by_cases he : e = sg sl i
+              · exact Or.inr he
+              · exact Or.inl (Or.inl ⟨h1, he⟩)
+            · exact Or.inl (Or.inr h1)
+      | lt =>
+        have hkd : dst sl.length i (hm sl.length key) + 1 < sl.length :=
+          no_full rfl hi hk_home hz hpath hocc rfl
+        have hkdn : dst sl.length (nx sl.length i) (hm sl.length key) = dst sl.length i (hm sl.length key) + 1 :=
+          dst_nx hi hk_home hkd
+        have := ih (s + 1) (nx sl.length i) key value sl rfl hrh hn (by omega) hd'
+          (hvis' sl (fun _ => Iff.rfl)) hz hk
+          (by
+            intro j hj hlt
+            rw [hkdn] at hlt
+            by_cases e : dst sl.length j (hm sl.length key) < dst sl.length i (hm sl.length key)
+            · exact hpath j hj e
+            · have : j = i := dst_inj_left hj hi hk_home (by omega)
+              subst this; exact hocc)
+          (by
+            intro p hp hnp _
+            have : p = i := nx_inj hp hi hnp
+            subst this
+            have := putStatus_swap (dst sl.length p (hm sl.length key)) (dst sl.length p (hm sl.length (sg sl p).1)) (hash key)
+              (hash (sg sl p).1) key (sg sl p).1
+            rw [hst] at this
+            exact this)
+          hnew
+        obtain ⟨f, sl', hf, hres, hlen', hrh', hnf, hpth, hocc2, hhas⟩ := this
+        rw [hkdn] at hres
+        have hfi : f ≠ i := fun e => hnf (by rw [e]; exact hocc)
+        refine ⟨f, sl', hf, hres, hlen', hrh', hnf, ?_, hocc2, hhas⟩
+        intro j hj hlt
+        by_cases hji : j = i
+        · subst hji; exact hocc
+        · have e1 := dst_from_nx hi hj hji
+          have e2 := dst_from_nx hi hf hfi
+          exact hpth j hj (by omega)
+    · -- empty slot: the pair is stored
+      have hemp : (sg sl i).1.isNil = true := by
+        unfold Occ at hocc; cases h : (sg sl i).1.isNil <;> simp_all
+      rw [putLoop_step_empty hemp]
+      refine ⟨i, sl.set i (key, value), hi, rfl, by simp, hrh.set_empty hi hocc hk hpath hprev hnew, hocc, ?_, ?_, ?_⟩
+      · intro j hj hlt; rw [dst_self hi] at hlt; omega
+      · intro j; rw [occ_set hi]; by_cases h : j = i
+        · subst h; simp [hk]
+        · simp [h]
+      · intro e; exact has_set_empty hi hocc hk e
 
 end JanetModel.Value
